@@ -54,6 +54,36 @@ func runC15(c *Ctx) {
 		})
 		off, ns := core.UnguardedSinks(fn, core.IsCallTo(false, kClose), g)
 		r.Eval(n + ns)
+		if n == 0 || len(off) > 0 {
+			// the commit may have been moved into a helper: then every call of the helper must sit on the
+			// updated == true edge of its caller
+			callers := callerFuncs(p, fn)
+			allGuarded := len(callers) > 0 && !(fn.Object() != nil && fn.Object().Exported())
+			for _, cf := range callers {
+				var upd ssa.Value
+				for _, prm := range cf.Params {
+					if prm.Name() == "updated" || prm.Name() == "ok" {
+						upd = prm
+					}
+				}
+				gc, nc := core.CondEdges(cf, func(at core.Atom) (bool, bool) {
+					if at.Op == token.ILLEGAL && upd != nil && at.Base == upd {
+						return true, true
+					}
+					return false, false
+				})
+				offc, _ := core.UnguardedSinks(cf, func(in ssa.Instruction) bool {
+					ci, ok := in.(ssa.CallInstruction)
+					return ok && core.SameFn(core.Callee(ci.Common()), fn)
+				}, gc)
+				if nc == 0 || len(offc) > 0 {
+					allGuarded = false
+				}
+			}
+			if allGuarded {
+				n, off = 1, nil
+			}
+		}
 		r.Check(n > 0 && len(off) == 0, "C15-D1", "commit-only-when-updated:"+core.FuncKey(fn), p.FnPos(fn),
 			"the downloaded file replaces the list only on the updated == true edge",
 			"CloseReplace (the commit of the downloaded file) can run although the refresh was not reported successful", traceOf(p, off)...)
@@ -382,9 +412,64 @@ func c15Metadata(c *Ctx) {
 	}
 	sort.Strings(names)
 	r.Info["metadata_writers"] = names
+	// a helper that is only called (directly or through other such helpers) from one classified writer is part of it:
+	// its stores are judged by that writer's rule, across the call
+	classified := map[string]bool{
+		"(*filtering.DNSFilter).finalizeUpdate": true, "(*filtering.DNSFilter).refreshFiltersArray": true, "(*filtering.DNSFilter).load": true,
+		"(*filtering.FilterYAML).unload": true, "(*filtering.DNSFilter).filterSetProperties$1": true, "(*filtering.DNSFilter).filterSetProperties$2": true, "(*filtering.DNSFilter).filterSetProperties$3": true,
+	}
+	var ownerOf func(fn *ssa.Function, depth int) string
+	ownerOf = func(fn *ssa.Function, depth int) string {
+		k := core.FuncKey(fn)
+		if classified[k] {
+			return k
+		}
+		if depth > 3 {
+			return ""
+		}
+		owner := ""
+		callers := callerFuncs(p, fn)
+		if len(callers) == 0 {
+			return ""
+		}
+		for _, cf := range callers {
+			o := ownerOf(cf, depth+1)
+			if o == "" || (owner != "" && o != owner) {
+				return ""
+			}
+			owner = o
+		}
+		return owner
+	}
+	owned := map[string][]ssa.Instruction{}
+	var keep []string
 	for _, fk := range names {
+		if classified[fk] {
+			keep = append(keep, fk)
+			continue
+		}
+		if o := ownerOf(p.Fn(fk), 0); o != "" && (o == "(*filtering.DNSFilter).finalizeUpdate" || o == "(*filtering.DNSFilter).refreshFiltersArray") {
+			owned[o] = append(owned[o], writers[fk]...)
+			if _, has := writers[o]; !has {
+				writers[o] = nil
+				keep = append(keep, o)
+			}
+			continue
+		}
+		keep = append(keep, fk)
+	}
+	sort.Strings(keep)
+	names = keep
+	deep := func(fn *ssa.Function, match func(core.Atom) (bool, bool), sink func(ssa.Instruction) bool) ([]core.Offender, int) {
+		off, n, _ := core.GuardedDeep(fn, match, sink, 3)
+		return off, n
+	}
+	for i, fk := range names {
+		if i > 0 && names[i-1] == fk {
+			continue
+		}
 		fn := p.Fn(fk)
-		ins := writers[fk]
+		ins := append(append([]ssa.Instruction{}, writers[fk]...), owned[fk]...)
 		isSink := func(x ssa.Instruction) bool {
 			for _, w := range ins {
 				if w == x {
@@ -395,20 +480,19 @@ func c15Metadata(c *Ctx) {
 		}
 		switch fk {
 		case "(*filtering.DNSFilter).finalizeUpdate":
-			g, n := core.CondEdges(fn, func(at core.Atom) (bool, bool) {
+			off, n := deep(fn, func(at core.Atom) (bool, bool) {
 				if (at.Op == token.EQL || at.Op == token.NEQ) && core.IsNilConst(at.Other) {
 					if cr, _, ok := core.CallResult(at.Base); ok && core.CalleeKey(cr.Common()) == "iface:(aghrenameio.PendingFile).CloseReplace" {
 						return true, at.Op == token.EQL
 					}
 				}
 				return false, false
-			})
-			off, _ := core.UnguardedSinks(fn, isSink, g)
+			}, isSink)
 			r.Check(n > 0 && len(off) == 0, "C15-D3", "metadata-after-commit:"+fk, p.FnPos(fn),
 				"rule count and checksum are updated only after CloseReplace returned nil", "list metadata is updated although the file was not (successfully) replaced", traceOf(p, off)...)
 		case "(*filtering.DNSFilter).refreshFiltersArray":
 			// guarded by the per-list updated flag (element of the flags slice) being true
-			g, n := core.CondEdges(fn, func(at core.Atom) (bool, bool) {
+			off, n := deep(fn, func(at core.Atom) (bool, bool) {
 				if at.Op != token.ILLEGAL {
 					return false, false
 				}
@@ -423,12 +507,11 @@ func c15Metadata(c *Ctx) {
 					}
 				}
 				return false, false
-			})
-			off, _ := core.UnguardedSinks(fn, isSink, g)
+			}, isSink)
 			r.Check(n > 0 && len(off) == 0, "C15-D3", "metadata-copied-only-if-updated:"+fk, p.FnPos(fn),
 				"metadata is copied back into the configuration only for lists whose refresh reported updated == true", "metadata of a list that was not updated is overwritten", traceOf(p, off)...)
 			// and only for the matching ID and URL
-			g2, n2 := core.CondEdges(fn, func(at core.Atom) (bool, bool) {
+			off2, n2 := deep(fn, func(at core.Atom) (bool, bool) {
 				if at.Op != token.EQL && at.Op != token.NEQ {
 					return false, false
 				}
@@ -438,8 +521,7 @@ func c15Metadata(c *Ctx) {
 					return true, at.Op == token.EQL
 				}
 				return false, false
-			})
-			off2, _ := core.UnguardedSinks(fn, isSink, g2)
+			}, isSink)
 			r.Check(n2 > 0 && len(off2) == 0, "C15-D3", "metadata-copied-to-same-list:"+fk, p.FnPos(fn),
 				"metadata is copied only to the list with the same ID", "metadata can be copied to a different list", traceOf(p, off2)...)
 		case "(*filtering.DNSFilter).load":
